@@ -13,8 +13,8 @@
 (* Hints may be imprecise (Contains more): only exclusion is a violation.  *)
 (***************************************************************************)
 EXTENDS Candidates, Types, Json, IOUtils, TLC
-Insts == ndJsonDeserialize(IOEnv.INST)      \* [id, g]
-Obs == ndJsonDeserialize(IOEnv.OBS)         \* [id, ir, args, hints: <<[vid, prop, cand]>>]
+Insts == ndJsonDeserialize(IOEnv.INST)      \* [id, g, schema]
+Obs == ndJsonDeserialize(IOEnv.OBS)         \* [id, ir, args, hints: <<[kind, vid, prop, cand, src, eid]>>]
 VARIABLES i, ph
 Init == i \in 1..Len(Insts) /\ ph = 0
 Next == ph = 0 /\ ph' = 1 /\ i' = i
@@ -42,10 +42,31 @@ Unsound(inst, o, h) ==
   IN IF fs = <<>> \/ \E j \in 1..Len(fs) : fs[j].op \in RegexOps THEN {}
      ELSE LET ty == Ty(fs[1].ltype.base, fs[1].ltype.mods) IN
           {x \in Probe(inst, o, fs, h.prop, ty) : (\A j \in 1..Len(fs) : FilterOp(fs[j].op, x, ArgOf(o, fs[j]))) /\ ~Contains(h.cand, x)}
+(* dynamic (tag-resolved) candidates: judged when every tag the filters on that property use is defined on the edge's SOURCE vertex, whose
+   graph vertex the harness logs (src) - the tag values are then known and the satisfying set is exact *)
+ItemByEid(ir, e) ==
+  LET c == CHOOSE c \in 1..Len(ir.comps) : \E k \in 1..Len(ir.comps[c].items) : ir.comps[c].items[k].eid = e
+      k == CHOOSE k \in 1..Len(ir.comps[c].items) : ir.comps[c].items[k].eid = e
+  IN ir.comps[c].items[k]
+TagValue(inst, src, field) ==
+  IF field = "__typename" THEN StrV(inst.schema.types[inst.g.verts[src].ty].chars) ELSE inst.g.verts[src].props[field]
+DynArg(inst, o, h, f) == IF f.arg.k = "tag" THEN TagValue(inst, h.src, f.arg.field) ELSE ArgOf(o, f)
+UnsoundDyn(inst, o, h) ==
+  LET v == VertexOf(o.ir, h.vid)
+      from == ItemByEid(o.ir, h.eid).from
+      fs == SelectSeq(v.filters, LAMBDA f : f.field = h.prop)
+      judgeable == /\ h.src > 0 /\ fs # <<>>
+                   /\ \A j \in 1..Len(fs) : fs[j].op \notin RegexOps /\ (fs[j].arg.k \in {"var", "none"} \/ (fs[j].arg.k = "tag" /\ fs[j].arg.vid = from))
+  IN IF ~judgeable THEN {}
+     ELSE LET ty == Ty(fs[1].ltype.base, fs[1].ltype.mods)
+              args == {DynArg(inst, o, h, fs[j]) : j \in 1..Len(fs)}
+              all == Probe(inst, o, <<>>, h.prop, ty) \cup {x \in args \cup UNION {Elems(a) : a \in args} : Fits(x, ty)}
+          IN {x \in all : (\A j \in 1..Len(fs) : FilterOp(fs[j].op, x, DynArg(inst, o, h, fs[j]))) /\ ~Contains(h.cand, x)}
 Judged == ph = 0 \/
   LET inst == Insts[i]  o == Obs[i]
-      bad == {j \in 1..Len(o.hints) : Unsound(inst, o, o.hints[j]) # {}}
+      U(h) == IF h.kind = "static" THEN Unsound(inst, o, h) ELSE UnsoundDyn(inst, o, h)
+      bad == {j \in 1..Len(o.hints) : U(o.hints[j]) # {}}
   IN IF bad = {} THEN PrintT(<<"VERDICT", inst.id, "hint.ok", Len(o.hints)>>)
      ELSE LET j == CHOOSE j \in bad : TRUE IN
-          PrintT(<<"VERDICT", inst.id, "hint.unsound", ToJson([hint |-> o.hints[j], excluded |-> CHOOSE x \in Unsound(inst, o, o.hints[j]) : TRUE])>>)
+          PrintT(<<"VERDICT", inst.id, "hint.unsound", ToJson([hint |-> o.hints[j], excluded |-> CHOOSE x \in U(o.hints[j]) : TRUE])>>)
 =============================================================================
